@@ -246,9 +246,14 @@ def c07_range_override_unpopulated_member(w, v):
     in the workbook (no node of its own) is not seen by other formulas that
     read that cell directly or through an overlapping range."""
     parts = v['sig'].split(':')
-    return parts[0] in ('reference', 'restricted-outputs-differ') and \
-        'downstream-of-unpopulated-member' in parts and \
-        bool(w.get('downstream_of_unpopulated_member'))
+    if parts[0] not in ('reference', 'restricted-outputs-differ'):
+        return False
+    # members with a blank node of their own / members that no node defines
+    # (their value travels through the solution object, without an edge)
+    return ('downstream-of-unpopulated-member' in parts and
+            bool(w.get('downstream_of_unpopulated_member'))) or \
+        ('downstream-of-nodeless-unpopulated-member' in parts and
+         bool(w.get('downstream_of_nodeless_unpopulated_member')))
 
 
 @matcher('c05_equal_size_reshaped')
